@@ -219,6 +219,35 @@ macro_rules! run_srt {
         let tol = $tol * 4.0 * smax;
         if $c["kind"] == "srt3" {
             let sd: Vec<$S> = $c["seed"].as_array().unwrap().iter().map(|x| x.as_i64().unwrap() as $S * $PI4).collect();
+            if $c["dk"].as_i64().unwrap_or(0) > 0 {
+                // off the grid: angles shifted by (0.3, -0.2, 0.45) rad and scales times (0.7, 1.3, 1.1) -- no products or quotients are exact any
+                // more.  No ring expectation exists there; the constructors must agree with each other and the decomposition must rebuild the
+                // transform, column by column relative to the column's own scale, to 64 epsilon
+                let eps = <$S>::EPSILON as f64;
+                let q = $Q::from_euler(EulerRot::XYZ, sd[0] + 0.3, sd[1] - 0.2, sd[2] + 0.45);
+                let so = [((sc[0] * 0.7) as $S) as f64, ((sc[1] * 1.3) as $S) as f64, ((sc[2] * 1.1) as $S) as f64];
+                let s = $V3::new(so[0] as $S, so[1] as $S, so[2] as $S);
+                let t = $V3::new(tr[0] as $S, tr[1] as $S, tr[2] as $S);
+                let m4 = $M4::from_scale_rotation_translation(s, q, t);
+                let a3 = $A3::from_scale_rotation_translation(s, q, t);
+                let prod = $M4::from_translation(t) * $M4::from_quat(q) * $M4::from_scale(s);
+                let aprod = $A3::from_translation(t) * $A3::from_quat(q) * $A3::from_scale(s);
+                let m4l = m3_of4(&f64s!(m4.to_cols_array()));
+                let relcols = |v: &[f64]| -> Vec<f64> { (0..9).map(|k| v[k] / so[k / 3].abs()).collect() };
+                near($cx, $c, "from_scale_rotation_translation (off-grid): Affine3 = Mat4", stringify!($A3), &relcols(&m4l), &relcols(&f64s!(a3.to_cols_array())[..9]), 8.0 * eps);
+                near($cx, $c, "from_translation * from_quat * from_scale (off-grid)", stringify!($M4), &relcols(&m4l), &relcols(&m3_of4(&f64s!(prod.to_cols_array()))), 8.0 * eps);
+                near($cx, $c, "from_translation * from_quat * from_scale (off-grid)", stringify!($A3), &relcols(&m4l), &relcols(&f64s!(aprod.to_cols_array())[..9]), 8.0 * eps);
+                let neg = so.iter().filter(|x| **x < 0.0).count() % 2 == 1;
+                let ds = [if neg { -so[0].abs() } else { so[0].abs() }, so[1].abs(), so[2].abs()];
+                for (who, (s2, r2, t2)) in [(stringify!($M4), m4.to_scale_rotation_translation()), (stringify!($A3), a3.to_scale_rotation_translation())] {
+                    near($cx, $c, "to_scale_rotation_translation: translation", who, &tr, &f64s!(t2.to_array()), 0.0);
+                    near($cx, $c, "to_scale_rotation_translation: unit rotation (off-grid)", who, &[1.0], &[r2.length() as f64], 16.0 * eps);
+                    let s2v = f64s!(s2.to_array());
+                    near($cx, $c, "to_scale_rotation_translation: scale relative (off-grid)", who, &[1.0, 1.0, 1.0], &[s2v[0] / ds[0], s2v[1] / ds[1], s2v[2] / ds[2]], 16.0 * eps);
+                    let back = m3_of4(&f64s!($M4::from_scale_rotation_translation(s2, r2, t2).to_cols_array()));
+                    near($cx, $c, "to_scale_rotation_translation -> recompose (off-grid, per column relative)", who, &relcols(&m4l), &relcols(&back), 64.0 * eps);
+                }
+            } else {
             let q = $Q::from_euler(EulerRot::XYZ, sd[0], sd[1], sd[2]);
             let s = $V3::new(sc[0] as $S, sc[1] as $S, sc[2] as $S);
             let t = $V3::new(tr[0] as $S, tr[1] as $S, tr[2] as $S);
@@ -276,10 +305,13 @@ macro_rules! run_srt {
                     near($cx, $c, &format!("to_scale_rotation_translation -> recompose column {i} relative"), who, &colexp, &colgot, $tol * 64.0);
                 }
             }
+            }
         } else {
             let j = $c["j"].as_i64().unwrap();
             let dk = $c["dk"].as_i64().unwrap_or(0) as i32;
             let th = (j as $S) * $PI4 + if dk > 0 { (2.0 as $S).powi(-dk) } else { 0.0 };
+            // off the grid the scales leave the powers of two as well (x 0.7, x 1.3): quotients by them are no longer exact
+            let sc: Vec<f64> = if dk > 0 { vec![((sc[0] * 0.7) as $S) as f64, ((sc[1] * 1.3) as $S) as f64] } else { sc };
             let s = $V2::new(sc[0] as $S, sc[1] as $S);
             let t = $V2::new(tr[0] as $S, tr[1] as $S);
             let a2 = $A2::from_scale_angle_translation(s, th, t);
